@@ -19,7 +19,7 @@
    of taker-fee share agreements - assumed absent), events, gas, cosmwasm pool hooks. *)
 From Coq Require Import ZArith List Bool.
 Import ListNotations.
-From Osmo Require Import Base.DecModel.
+From Osmo Require Import Base.DecModel Gen.C05_consts.
 Open Scope Z_scope.
 
 Inductive err :=
@@ -83,7 +83,7 @@ Definition calc_fee_out (amt f : Z) : result (Z * Z) :=
   if P18 - f =? 0 then Err EPanic
   else let after := d_truncate_int (d_ceil (d_quo (d_from_int amt) (P18 - f))) in Ok (after, after - amt).
 
-Definition int_max_value : Z := 2 ^ 256 - 1.
+Definition int_max_value : Z := 2 ^ int_max_bits - 1.      (* Gen/C05_consts: translated from router.go *)
 
 (* ---------------------------------------------------------------- the pool interface -- *)
 Record PoolIface := {
@@ -197,12 +197,12 @@ Definition pm_swap_exact_in (s : state) (sender : acct) (pid dIn amt dOut minOut
     end
   end.
 
-(* RouteExactAmountIn's loop: the caller's minimum only on the last hop, 1 before *)
+(* RouteExactAmountIn's loop: the caller's minimum only on the last hop, hop_min_out (= 1, Gen/C05_consts) before *)
 Fixpoint route_in_loop (s : state) (sender : acct) (route : list (Z * Z)) (dIn amt minOut : Z) : result (state * Z) :=
   match route with
   | [] => Err ERoute
   | (pid, dOut) :: rest =>
-    let m := match rest with [] => minOut | _ => 1 end in
+    let m := match rest with [] => minOut | _ => hop_min_out end in
     match pm_swap_exact_in s sender pid dIn amt dOut m with
     | Err e => Err e
     | Ok (s', (out, _)) =>
@@ -280,7 +280,7 @@ Fixpoint split_in_loop (s : state) (sender : acct) (legs : list (list (Z * Z) * 
   | [] => Ok (s, total)
   | (r, amt) :: rest =>
     if amt <? 0 then Err EPanic else                         (* sdk.NewCoin panics *)
-    match route_exact_in s sender r dIn amt 0 with
+    match route_exact_in s sender r dIn amt split_leg_min with
     | Err e => Err e
     | Ok (s', out) => split_in_loop s' sender rest dIn (total + out)
     end
